@@ -1,0 +1,108 @@
+//! Lock wrappers used instead of `parking_lot::RwLock` in swarm.rs when
+//! compiled with `--cfg aquatic_verif`: same API subset, but every request
+//! and release is reported to the lock-order recorder in
+//! `aquatic_common::verif` with the protected type as lock class.
+
+use std::mem::ManuallyDrop;
+use std::ops::{Deref, DerefMut};
+
+use aquatic_common::verif::{lock_dropped, lock_wanted};
+
+fn class<T>() -> &'static str {
+    std::any::type_name::<T>()
+}
+
+#[derive(Default)]
+pub struct RwLock<T>(parking_lot::RwLock<T>);
+
+impl<T> RwLock<T> {
+    pub fn read(&self) -> RwLockReadGuard<'_, T> {
+        lock_wanted(class::<T>());
+
+        RwLockReadGuard(self.0.read())
+    }
+
+    pub fn write(&self) -> RwLockWriteGuard<'_, T> {
+        lock_wanted(class::<T>());
+
+        RwLockWriteGuard(self.0.write())
+    }
+
+    pub fn upgradable_read(&self) -> RwLockUpgradableReadGuard<'_, T> {
+        lock_wanted(class::<T>());
+
+        RwLockUpgradableReadGuard(ManuallyDrop::new(self.0.upgradable_read()))
+    }
+}
+
+pub struct RwLockReadGuard<'a, T>(parking_lot::RwLockReadGuard<'a, T>);
+
+impl<T> Deref for RwLockReadGuard<'_, T> {
+    type Target = T;
+
+    fn deref(&self) -> &T {
+        &self.0
+    }
+}
+
+impl<T> Drop for RwLockReadGuard<'_, T> {
+    fn drop(&mut self) {
+        lock_dropped(class::<T>());
+    }
+}
+
+pub struct RwLockWriteGuard<'a, T>(parking_lot::RwLockWriteGuard<'a, T>);
+
+impl<T> Deref for RwLockWriteGuard<'_, T> {
+    type Target = T;
+
+    fn deref(&self) -> &T {
+        &self.0
+    }
+}
+
+impl<T> DerefMut for RwLockWriteGuard<'_, T> {
+    fn deref_mut(&mut self) -> &mut T {
+        &mut self.0
+    }
+}
+
+impl<T> Drop for RwLockWriteGuard<'_, T> {
+    fn drop(&mut self) {
+        lock_dropped(class::<T>());
+    }
+}
+
+pub struct RwLockUpgradableReadGuard<'a, T>(
+    ManuallyDrop<parking_lot::RwLockUpgradableReadGuard<'a, T>>,
+);
+
+impl<'a, T> RwLockUpgradableReadGuard<'a, T> {
+    /// The class stays held across the upgrade
+    pub fn upgrade(mut s: Self) -> RwLockWriteGuard<'a, T> {
+        // Safety: `s` is forgotten right away, so the inner guard is moved
+        // out exactly once and never dropped through `s`
+        let inner = unsafe { ManuallyDrop::take(&mut s.0) };
+
+        std::mem::forget(s);
+
+        RwLockWriteGuard(parking_lot::RwLockUpgradableReadGuard::upgrade(inner))
+    }
+}
+
+impl<T> Deref for RwLockUpgradableReadGuard<'_, T> {
+    type Target = T;
+
+    fn deref(&self) -> &T {
+        &self.0
+    }
+}
+
+impl<T> Drop for RwLockUpgradableReadGuard<'_, T> {
+    fn drop(&mut self) {
+        // Safety: only reached when `upgrade` did not take the inner guard
+        unsafe { ManuallyDrop::drop(&mut self.0) };
+
+        lock_dropped(class::<T>());
+    }
+}
